@@ -10,8 +10,21 @@
 (***************************************************************************)
 EXTENDS Cache, Json
 
-VARIABLES hist, ip
-mcvars == <<W, obs, hist, ip>>
+VARIABLES hist, ip, ph
+mcvars == <<W, obs, hist, ip, ph>>
+
+(* pattern modes: a history is  query [relate] edit query [query]  -- ph counts the phases *)
+Pat == PatC \cup PatM
+QOps == {"tq", "sq"}
+ROps == {"tclone", "sclone", "sadd", "sset"}
+EOps == {"tmut", "txo", "smut", "sxo", "sadd", "sdel", "sset"}
+PhaseNext(p, op) ==
+  CASE p = 0 -> IF op \in QOps THEN {1} ELSE {}
+    [] p = 1 -> (IF op \in ROps THEN {2} ELSE {}) \cup (IF op \in EOps THEN {3} ELSE {})
+    [] p = 2 -> IF op \in EOps THEN {3} ELSE {}
+    [] p = 3 -> IF op \in QOps THEN {4} ELSE {}
+    [] p = 4 -> IF op \in QOps THEN {5} ELSE {}
+    [] OTHER -> {}
 
 MCInit == /\ \E mode \in Modes : \E pr \in InitParams(mode) :
                /\ W = InitWorld(mode, pr[1], pr[2], pr[3])
@@ -19,17 +32,23 @@ MCInit == /\ \E mode \in Modes : \E pr \in InitParams(mode) :
                          ns |-> IF mode \in {"T"} \cup FocusC THEN 0 ELSE 1]
           /\ obs = NoV
           /\ hist = <<>>
+          /\ ph = 0
 
 MCNext == /\ Len(hist) < DepthOf(W)
           /\ \E act \in Acts(W) : \E out \in Outs(W, act) :
-                Do(act, out) /\ hist' = Append(hist, act)
+                /\ Do(act, out) /\ hist' = Append(hist, act)
+                /\ IF W.mode \in Pat
+                   THEN /\ ph' \in PhaseNext(ph, act.op)
+                        \* the second query asks another chromosome than the first
+                        /\ (ph = 4 => <<act.op, act.a>> # <<hist[Len(hist)].op, hist[Len(hist)].a>>)
+                   ELSE ph' = ph
           /\ UNCHANGED ip
 
 MCSpec == MCInit /\ [][MCNext]_mcvars
 
 LastAct == IF hist = <<>> THEN A("", 0, 0, 0, 0, "", "") ELSE hist[Len(hist)]
-View == <<W, obs, LastAct, ip>>
+View == <<W, obs, LastAct, ip, ph, IF W.mode \in Pat THEN hist ELSE <<>>>>
 
-Emit == (hist # <<>> /\ IsQuery(LastAct)) =>
+Emit == (hist # <<>> /\ IsQuery(LastAct) /\ (W.mode \in Pat => ph >= 4)) =>
           PrintT(<<"HIST", ToJson([ip |-> ip, hist |-> hist, pred |-> obs])>>)
 =============================================================================
